@@ -14,6 +14,7 @@ fn main() {
     }
     // panics in the code under test are data; keep stderr quiet
     std::panic::set_hook(Box::new(|_| {}));
+    install_sink();
     let mode = args[1].as_str();
     let jobs = std::io::BufReader::new(std::fs::File::open(&args[2]).expect("open jobs"));
     log::open(&args[3]);
@@ -42,3 +43,22 @@ fn main() {
     log::close();
     eprintln!("drive: {n} jobs");
 }
+
+/// Verification hook sink (`verif-hooks` feature of salsa): protocol events become trace lines.
+#[cfg(feature = "hooks")]
+fn install_sink() {
+    salsa::verif::set_sink(Box::new(|e: &salsa::verif::VerifEvent| {
+        match e.name {
+            "intern_rev_recorded" => {
+                ev!("e": "irec", "cap": e.args[0], "rev": e.args[1]);
+            }
+            name => {
+                let k = e.key.map(|k| items::abs_key_global(k)).unwrap_or_default();
+                let k2 = e.key2.map(|k| items::abs_key_global(k)).unwrap_or_default();
+                ev!("e": "hk", "name": name, "k": k, "k2": k2, "a0": e.args[0], "a1": e.args[1], "a2": e.args[2], "a3": e.args[3], "text": e.text);
+            }
+        }
+    }));
+}
+#[cfg(not(feature = "hooks"))]
+fn install_sink() {}
